@@ -392,9 +392,18 @@ impl<'a> Trainer<'a> {
 
         let bias = unsafe { (bias / quantize_multiplier).to_int_unchecked::<i32>() };
 
+        #[cfg(feature = "verif-hooks")]
+        let mut verif_log = crate::verif_hooks::BoundaryLog {
+            bias,
+            weights: vec![],
+        };
+
         for (feature, fid) in self.feature_ids {
             let raw_weight = model.feature_coefficient(i32::try_from(fid)?, wb_idx);
             let weight = unsafe { (raw_weight / quantize_multiplier).to_int_unchecked::<i32>() };
+
+            #[cfg(feature = "verif-hooks")]
+            verif_log.weights.push((Self::verif_describe(&feature), weight));
 
             if weight == 0 {
                 continue;
@@ -446,6 +455,9 @@ impl<'a> Trainer<'a> {
             }
         }
 
+        #[cfg(feature = "verif-hooks")]
+        crate::verif_hooks::record_boundary(verif_log);
+
         let tag_models = self.tag_trainer.train(epsilon, cost, solver)?;
 
         Ok(Model::new(
@@ -489,6 +501,51 @@ impl<'a> Trainer<'a> {
     /// Returns the number of boundary features.
     pub fn n_features(&self) -> usize {
         self.feature_ids.len()
+    }
+
+    #[cfg(feature = "verif-hooks")]
+    fn verif_describe(feature: &BoundaryFeature<'a>) -> crate::verif_hooks::FeatureDesc {
+        use crate::verif_hooks::FeatureDesc;
+        match feature {
+            BoundaryFeature::CharacterNgram(f) => FeatureDesc::Char {
+                ngram: f.ngram.to_string(),
+                rel: f.rel_position,
+            },
+            BoundaryFeature::CharacterTypeNgram(f) => FeatureDesc::Type {
+                ngram: f.ngram.to_vec(),
+                rel: f.rel_position,
+            },
+            BoundaryFeature::DictionaryWord(f) => FeatureDesc::Dict {
+                length: f.length,
+                side: match f.position {
+                    DictionaryWordPosition::Left => 0,
+                    DictionaryWordPosition::Inside => 1,
+                    DictionaryWordPosition::Right => 2,
+                },
+            },
+        }
+    }
+
+    /// Verification hook: the examples stored so far, with features decoded and counted.
+    #[cfg(feature = "verif-hooks")]
+    #[allow(clippy::type_complexity)]
+    pub fn verif_examples(&self) -> Vec<(Vec<(crate::verif_hooks::FeatureDesc, f64)>, f64)> {
+        let mut by_id = HashMap::new();
+        for (feature, &fid) in &self.feature_ids {
+            by_id.insert(fid, Self::verif_describe(feature));
+        }
+        self.xs
+            .iter()
+            .zip(&self.ys)
+            .map(|(x, &y)| {
+                (
+                    x.iter()
+                        .map(|(fid, v)| (by_id[fid].clone(), *v))
+                        .collect(),
+                    y,
+                )
+            })
+            .collect()
     }
 }
 
